@@ -11,7 +11,7 @@ import ast
 from lcsa.alg import Rat
 from lcsa.model import Undecided, unparse, is_self_attr
 from lcsa.sym import Evaluator, Path, ObjV, SeqV, StrMapV, _Frame, LETTERS
-from lcsa import tab, facts
+from lcsa import tab, facts, bind
 from props.common import SEQ, SP, SEQ_PATH
 
 UNIVERSE = [chr(i) for i in range(0, 256)] + [" ", "　", " ", "А", "Ω", "é", "​", "﻿"]
@@ -119,14 +119,19 @@ def _ctor(ck, prog):
     f = prog.fn(SEQ, "Sequence.__init__")
     construct = SEQ_PATH + ":Sequence.__init__"
     body = f.body()
-    # (1) first statement: type check that raises
-    first = body[0]
-    ok = isinstance(first, ast.If) and isinstance(first.test, ast.UnaryOp) and isinstance(first.test.op, ast.Not) \
-        and isinstance(first.test.operand, ast.Call) and getattr(first.test.operand.func, "id", None) == "verifyType" \
-        and [unparse(a) for a in first.test.operand.args] == ["seq", "str"] \
-        and any(isinstance(x, ast.Raise) for x in first.body)
-    ck.ob("ORDER-typecheck", construct, ok, expected="`if not verifyType(seq, str): raise` is the first statement",
-          found=unparse(first.test) if isinstance(first, ast.If) else unparse(first)[:80], slot="type-check-first", where=f.loc(first))
+    # (1) the type check: it raises for a non-str and nothing uses `seq` before it
+    tc = None
+    for st in body:
+        if isinstance(st, ast.If) and any(isinstance(x, ast.Raise) for x in st.body):
+            t = unparse(st.test).replace(" ", "")
+            if t in ("notverifyType(seq,str)", "notisinstance(seq,str)", "type(seq)!=str", "type(seq)isnotstr", "nottype(seq)==str", "nottype(seq)isstr"):
+                tc = st
+                break
+    ck.shape(tc is not None, "Sequence.__init__: a str type check on `seq` that raises", f.loc())
+    before = body[:body.index(tc)]
+    uses = [unparse(st)[:60] for st in before if any(isinstance(n, ast.Name) and n.id == "seq" for n in ast.walk(st))]
+    ck.ob("ORDER-typecheck", construct, not uses, expected="the type check precedes every use of the argument", found=uses or "nothing uses seq before the check",
+          slot="type-check-first", where=f.loc(tc))
     # (2) typestate of `seq`
     tags = {"raw"}
     problems = []
@@ -193,23 +198,27 @@ def _ctor(ck, prog):
 def _verify_type(ck, prog):
     g = prog.fn("backend/backendtools.py", "verifyType")
     construct = g.mod.relpath + ":verifyType"
-    # the value returned on the normal path: True iff obj.__class__ == typeHere
-    ok = False
     tries = [s for s in g.body() if isinstance(s, ast.Try)]
-    if tries:
-        b = tries[0].body
-        asg = [s for s in b if isinstance(s, ast.Assign)]
-        ifs = [s for s in b if isinstance(s, ast.If)]
-        if asg and ifs and unparse(asg[0].value) == "obj.__class__":
-            t = ifs[0].test
-            cls_var = asg[0].targets[0].id
-            if isinstance(t, ast.Compare) and isinstance(t.ops[0], ast.Eq) and \
-                    {unparse(t.left), unparse(t.comparators[0])} == {cls_var, "typeHere"}:
-                r1 = ifs[0].body[0]
-                r2 = ifs[0].orelse[0] if ifs[0].orelse else None
-                ok = isinstance(r1, ast.Return) and isinstance(r1.value, ast.Constant) and r1.value.value is True \
-                    and isinstance(r2, ast.Return) and isinstance(r2.value, ast.Constant) and r2.value.value is False
-    ck.ob("DT", construct, ok, expected="True iff obj.__class__ == typeHere", found=unparse(g.node)[:160] if not ok else "as expected",
+    stmts = tries[0].body if tries else g.body()
+    asg = [s for s in stmts if isinstance(s, ast.Assign)]
+    ifs = [s for s in stmts if isinstance(s, ast.If)]
+    direct = [s for s in stmts if isinstance(s, ast.Return)]
+    if direct and not ifs:
+        # `return obj.__class__ == typeHere` / `return type(obj) is typeHere`
+        t = unparse(direct[0].value).replace(" ", "")
+        ck.shape(t in ("obj.__class__==typeHere", "type(obj)==typeHere", "type(obj)istypeHere", "typeHere==obj.__class__"), "verifyType: exact-class test", g.loc())
+        ck.ob("DT", construct, True, expected="True iff the class of obj is typeHere", found=t, slot="table", where=g.loc())
+        return
+    ck.shape(len(asg) >= 1 and len(ifs) == 1 and unparse(asg[0].value).replace(" ", "") in ("obj.__class__", "type(obj)"), "verifyType: class read then tested", g.loc())
+    cls_var = asg[0].targets[0].id
+    t = ifs[0].test
+    ck.shape(isinstance(t, ast.Compare) and len(t.ops) == 1 and {unparse(t.left), unparse(t.comparators[0])} == {cls_var, "typeHere"}
+             and len(ifs[0].body) == 1 and len(ifs[0].orelse) == 1 and isinstance(ifs[0].body[0], ast.Return) and isinstance(ifs[0].orelse[0], ast.Return)
+             and isinstance(ifs[0].body[0].value, ast.Constant) and isinstance(ifs[0].orelse[0].value, ast.Constant), "verifyType: if <class == typeHere>: return <bool> else: return <bool>",
+             g.loc())
+    pos = isinstance(t.ops[0], (ast.Eq, ast.Is))
+    r1, r2 = ifs[0].body[0].value.value, ifs[0].orelse[0].value.value
+    ck.ob("DT", construct, (r1, r2) == ((True, False) if pos else (False, True)), expected="True iff obj.__class__ == typeHere", found={"test": unparse(t), "then": r1, "else": r2},
           slot="table", where=g.loc())
 
 
@@ -218,35 +227,34 @@ def _sp_init(ck, prog):
     construct = f.mod.relpath + ":" + f.qual
     # rejection of two empty inputs
     rej = None
-    for s in f.body():
-        if isinstance(s, ast.If) and isinstance(s.test, ast.BoolOp) and isinstance(s.test.op, ast.And):
-            parts = sorted(unparse(v).replace('"', "'") for v in s.test.values)
-            if parts == ["sequence == ''", "sequenceFile == ''"] and any(isinstance(x, ast.Raise) for x in s.body):
-                rej = s
-    ck.ob("DT", construct, rej is not None, expected="raise when sequence == '' and sequenceFile == ''",
-          found=unparse(rej.test) if rej is not None else None, slot="empty-rejected", where=f.loc())
+    for s in ast.walk(f.node):
+        if isinstance(s, ast.If) and any(isinstance(x, ast.Raise) for x in s.body) and "sequence" in unparse(s.test) and "sequenceFile" in unparse(s.test):
+            rej = s
+    ck.shape(rej is not None, "SequenceParameters.__init__: a raising test that involves both inputs", f.loc())
+    t = unparse(rej.test).replace('"', "'").replace(" ", "")
+    forms = ("sequence==''andsequenceFile==''", "sequenceFile==''andsequence==''", "notsequenceandnotsequenceFile", "not(sequenceorsequenceFile)",
+             "notsequenceFileandnotsequence")
+    ck.shape(t in forms or "or" in t, "SequenceParameters.__init__: emptiness test in a recognised form", f.loc(rej))
+    ck.ob("DT", construct, t in forms, expected="raise when both sequence and sequenceFile are empty", found=unparse(rej.test), slot="empty-rejected", where=f.loc(rej))
     # string branch: Sequence(sequence, validateSeq=True)
-    ctor = []
+    ctor = [n for n in ast.walk(f.node) if isinstance(n, ast.Call) and prog.class_of_ctor(f.mod, n) == "Sequence" and n.args
+            and isinstance(n.args[0], ast.Name) and n.args[0].id == "sequence"]
+    ck.shape(len(ctor) == 1, "SequenceParameters.__init__: one Sequence(sequence, ...) construction", f.loc())
+    callee, b = bind.bind(prog, f, ctor[0])
+    v = b.get("validateSeq")
+    ck.ob("BIND", construct, v is not None and isinstance(v, ast.Constant) and v.value is True, expected="Sequence(sequence, validateSeq=True)", found=unparse(ctor[0]),
+          slot="string-branch-validates", where=f.loc(ctor[0]), note="without it the string is neither upper-cased-then-validated nor stripped of whitespace")
+    guard = None
     for n in ast.walk(f.node):
-        if isinstance(n, ast.Call) and prog.class_of_ctor(f.mod, n) == "Sequence" and n.args \
-                and isinstance(n.args[0], ast.Name) and n.args[0].id == "sequence":
-            ctor.append(n)
-    ok = len(ctor) == 1 and any(k.arg == "validateSeq" and isinstance(k.value, ast.Constant) and k.value.value is True
-                                for k in ctor[0].keywords) and len(ctor[0].args) == 1
-    if len(ctor) == 1 and not ok and len(ctor[0].args) == 4:
-        a = ctor[0].args[3]
-        ok = isinstance(a, ast.Constant) and a.value is True
-    ck.ob("BIND", construct, ok, expected="Sequence(sequence, validateSeq=True)", found=[unparse(c) for c in ctor],
-          slot="string-branch-validates", where=f.loc())
-    # the branch is taken exactly when sequence != ''
-    guard_ok = False
-    for n in ast.walk(f.node):
-        if isinstance(n, ast.If) and any(c in list(ast.walk(n)) for c in ctor[:1]):
-            t = unparse(n.test).replace('"', "'")
-            if t in ("not sequence == ''", "sequence != ''", "not (sequence == '')"):
-                guard_ok = bool(ctor) and any(x is ctor[0] for b in n.body for x in ast.walk(b))
-    ck.ob("DT", construct, guard_ok, expected="string branch taken iff sequence != ''", found=guard_ok, slot="string-branch-guard",
-          where=f.loc())
+        if isinstance(n, ast.If) and any(x is ctor[0] for b_ in (n.body, n.orelse) for st in b_ for x in ast.walk(st)):
+            guard = n
+    ck.shape(guard is not None, "SequenceParameters.__init__: the string branch sits under a test of `sequence`", f.loc())
+    t = unparse(guard.test).replace('"', "'").replace(" ", "")
+    in_body = any(x is ctor[0] for st in guard.body for x in ast.walk(st))
+    pos_forms = ("notsequence==''", "sequence!=''", "not(sequence=='')", "sequence")
+    neg_forms = ("sequence==''", "notsequence")
+    ck.shape(t in pos_forms + neg_forms, "SequenceParameters.__init__: string-branch guard in a recognised form", f.loc(guard))
+    ck.ob("DT", construct, (t in pos_forms) == in_body, expected="string branch taken iff sequence != ''", found=unparse(guard.test), slot="string-branch-guard", where=f.loc(guard))
 
 
 def _accessors(ck, prog):
